@@ -55,6 +55,15 @@ func payload(pattern string, n int, seed int64, prefix string) string {
 		for i := range b {
 			b[i] = byte('0' + i%10)
 		}
+	case "utf8-2", "utf8-3", "utf8-4", "utf8-mixed":
+		// valid multi-byte sequences, so that chunk boundaries fall inside them
+		unit := map[string]string{"utf8-2": "\u00e9", "utf8-3": "\u20ac", "utf8-4": "\U0001F600", "utf8-mixed": "a\u00e9\u20ac\U0001F600-"}[pattern]
+		copy(b, strings.Repeat(unit, n/len(unit)+1))
+	case "all-bytes":
+		// every byte value, including NUL and invalid UTF-8
+		for i := range b {
+			b[i] = byte(i*37 + i/256)
+		}
 	}
 	return string(b)
 }
@@ -121,6 +130,7 @@ func one(k kase, r *engine.Report) (string, string) {
 			in = append(append(append([]string{}, chunks[:k.Pos]...), foreign[k.Pos%len(foreign)], foreign[(k.Pos+1)%len(foreign)]), chunks[k.Pos:]...)
 		}
 		var got string
+		before := append([]string{}, in...)
 		if pm := guard(func() { got, err = nodetls.CombineFromNextProtos(k.Prefix, in) }); pm != "" {
 			return "combine:panic:" + lenClass(len(chunks)), "CombineFromNextProtos panicked on its own encoder's output: " + pm
 		}
@@ -133,6 +143,17 @@ func one(k kase, r *engine.Report) (string, string) {
 				d++
 			}
 			return "roundtrip:" + k.Kind + ":" + lenClass(len(chunks)), fmt.Sprintf("prefix=%s len=%d chunks=%d content=%s: recombined payload differs (got %d bytes, first difference at offset %d)", pn, k.Len, len(chunks), k.Content, len(got), d)
+		}
+		// recombining is a pure function of the list: the caller's list (the
+		// ClientHello's own protocol list on the server) is left as it was and
+		// a second call gives the same answer
+		for i := range before {
+			if in[i] != before[i] {
+				return "combine:modifies-its-input:" + k.Kind, fmt.Sprintf("prefix=%s len=%d chunks=%d: CombineFromNextProtos changed entry %d of the list it was given (%.40q -> %.40q)", pn, k.Len, len(chunks), i, before[i], in[i])
+			}
+		}
+		if again, err := nodetls.CombineFromNextProtos(k.Prefix, in); err != nil || again != got {
+			return "combine:second-call-differs:" + k.Kind, fmt.Sprintf("prefix=%s len=%d chunks=%d: recombining the same list a second time gives %d bytes (err %v), the first time %d", pn, k.Len, len(chunks), len(again), err, len(got))
 		}
 		r.Outcome("roundtrip-ok:" + lenClass(len(chunks)))
 		r.Branch(lenClass(len(chunks)))
@@ -187,9 +208,9 @@ func cases(c *engine.Ctx, emit func(k kase)) {
 			}
 		}
 		// adversarial contents and chunk-boundary lengths
-		for _, pat := range []string{"hyphens", "header-like", "digits", "random"} {
+		for _, pat := range []string{"hyphens", "header-like", "digits", "random", "utf8-2", "utf8-3", "utf8-4", "utf8-mixed", "all-bytes"} {
 			for _, ch := range []int{1, 2, 3, 99, 100, 101, 102, 150, 267} {
-				for d := -1; d <= 1; d++ {
+				for d := -4; d <= 4; d++ {
 					n := ch*per + d
 					if n >= 1 && n <= maxLen {
 						emit(kase{Kind: "roundtrip", Prefix: pfx, Len: n, Content: pat, Seed: c.Seed})
@@ -205,6 +226,9 @@ func cases(c *engine.Ctx, emit func(k kase)) {
 			chunks := (n + per - 1) / per
 			for pos := 0; pos <= chunks; pos++ {
 				emit(kase{Kind: "mixed", Prefix: pfx, Len: n, Content: "random", Pos: pos, Seed: c.Seed})
+				if n <= 10*per+5 {
+					emit(kase{Kind: "mixed", Prefix: pfx, Len: n, Content: "utf8-mixed", Pos: pos, Seed: c.Seed})
+				}
 			}
 		}
 		// malformed entries: prefix + every string of length 0..3 over {0,-,x}
@@ -274,9 +298,9 @@ func init() {
 	engine.Register(&engine.CheckDef{
 		ID:    "C20",
 		Level: "exploration",
-		Rule: "thorough: every payload length 1..Lmax; quick: every length up to three chunks plus the three lengths around every chunk-count boundary up to Lmax (Lmax = largest length whose entries fit a ClientHello's ALPN list) for both request prefixes with position-coded content (thorough: also seed-random content), adversarial contents at chunk-boundary lengths, foreign names interleaved at every position for selected lengths, every malformed entry prefix+{0,1,9,-,x}^0..4 (alone and next to a genuine chunk); " +
+		Rule: "thorough: every payload length 1..Lmax; quick: every length up to three chunks plus the three lengths around every chunk-count boundary up to Lmax (Lmax = largest length whose entries fit a ClientHello's ALPN list) for both request prefixes with position-coded content (thorough: also seed-random content), adversarial contents (delimiter characters, header look-alikes, valid 2/3/4-byte UTF-8 sequences straddling chunk boundaries, every byte value incl. NUL and invalid UTF-8) at the nine lengths around each of nine chunk-count boundaries, the list given to CombineFromNextProtos must come back unmodified and a second call must agree, foreign names interleaved at every position for selected lengths, every malformed entry prefix+{0,1,9,-,x}^0..4 (alone and next to a genuine chunk); " +
 			"distinct_nontrivial counts cases (all distinct by construction) other than single-chunk round trips",
-		Assumptions: []string{"payload content beyond the listed patterns is not enumerated (content is irrelevant to a length-driven splitter; adversarial contents cover the delimiter characters)"},
+		Assumptions: []string{"payload content beyond the listed patterns is not enumerated (a correct splitter is driven by byte length only; the adversarial contents cover the delimiter characters, multi-byte runes and arbitrary bytes)"},
 		Shards:      func(c *engine.Ctx) int { return 16 },
 		Run:         run,
 		Replay:      replay,
